@@ -8,7 +8,8 @@
                                         193-269  encrypt_eyaml
                                         271-305  set_eyaml_value
                                         381-395  is_eyaml_value
-     yamlpath/commands/eyaml_rotate_keys.py 116-200 the per-file loop and the save decision
+     yamlpath/commands/eyaml_rotate_keys.py 112-200 the loop over the files, the per-file loop and the
+                                        save decision
      yamlpath/processor.py  2663-2684 (recurse, Hash and Array branches) and
                             2729-2738 (_update_node: the replacement node) -- see below
      yamlpath/common/nodes.py 96-106, 222-247 (make_new_node: the new scalar keeps the Anchor,
@@ -316,10 +317,50 @@ Section Cipher.
     | p :: r => do st' <- rotate_path st p; rotate_paths st' r
     end.
 
-  (* one file of eyaml-rotate-keys: the final state; the caller writes (and backs
-     up) iff r_changed *)
+  (* one file of eyaml-rotate-keys (eyaml_rotate_keys.py:116-185): `file_changed = False`,
+     `seen_anchors = []` are set PER FILE; `exit_state` is set once before the loop and
+     carried from file to file.  The caller writes (and backs up) iff r_changed. *)
+  Definition rotate_file_from (ex : nat) (d : node) (next : N) (folded : list N) : outcome rstate :=
+    rotate_paths (mkrs d [] false ex next folded []) (find_eyaml_paths d).
+
   Definition rotate_file (d : node) (next : N) (folded : list N) : outcome rstate :=
-    rotate_paths (mkrs d [] false 0 next folded []) (find_eyaml_paths d).
+    rotate_file_from 0 d next folded.
+
+  (* ---- `for yaml_file in args.yaml_files` (eyaml_rotate_keys.py:114-198) --------------------
+     What a command-line argument turns out to be is an input (isfile / ruamel load are
+     oracles); a loaded file comes with its own identity numbering ([next] = first identity
+     not used by its document).  A changed file is saved (C17: Sv.CRotate) before the next
+     file is looked at; an exception that is not an EYAMLCommandException leaves main() at
+     once: the files before it are done, the others untouched, no exit status of its own. *)
+  Inductive file_in :=
+    | FiNotFile                                       (* not isfile(): exit_state = 2; continue *)
+    | FiUnloadable                                    (* get_yaml_data failed: exit_state = 3; continue *)
+    | FiDoc (d : node) (next : N) (folded : list N).
+
+  Inductive file_res :=
+    | FrSkipped                                       (* nothing read into memory, nothing written *)
+    | FrDone (st : rstate).                           (* r_changed st: backed up (on request) and written with r_doc st *)
+
+  Record run_out := mkro {
+    ro_files : list file_res;                         (* one entry per file the loop got through *)
+    ro_end : outcome nat                              (* sys.exit(exit_state), or the escaping exception *)
+  }.
+
+  Fixpoint rotate_files (ex : nat) (fs : list file_in) : run_out :=
+    match fs with
+    | [] => mkro [] (Ok ex)
+    | FiNotFile :: r => let o := rotate_files 2 r in mkro (FrSkipped :: ro_files o) (ro_end o)
+    | FiUnloadable :: r => let o := rotate_files 3 r in mkro (FrSkipped :: ro_files o) (ro_end o)
+    | FiDoc d next folded :: r =>
+        match rotate_file_from ex d next folded with
+        | Ok st => let o := rotate_files (r_exit st) r in mkro (FrDone st :: ro_files o) (ro_end o)
+        | Raise e => mkro [] (Raise e)
+        | OutOfFuel => mkro [] OutOfFuel
+        end
+    end.
+
+  (* main(): exit_state = 0 before the loop *)
+  Definition rotate_main (fs : list file_in) : run_out := rotate_files 0 fs.
 End Cipher.
 
 End Ey.
